@@ -1139,3 +1139,110 @@ def register(reg):      # noqa: F811
     for cls in FLOAT_CODECS:
         reg.add(FloatEncode(cls))
         reg.add(FloatDecode(cls))
+
+
+# ------------------------------------------------------------------------------------------- mapping encode
+enc_kv = z3.Function("enc_pairs", VSeq, VSeq, Val, Val, BSeq)   # concatenation of enc(key i as K) ++ enc(value i as V), in order
+
+
+def enc_kv_axioms():
+    p, q = z3.Const("kp", VSeq), z3.Const("kq", VSeq)
+    x, y, kt, vt = z3.Const("kx", Val), z3.Const("ky", Val), z3.Const("kkt", Val), z3.Const("kvt", Val)
+    return [z3.ForAll([kt, vt], enc_kv(z3.Empty(VSeq), z3.Empty(VSeq), kt, vt) == z3.Empty(BSeq)),
+            z3.ForAll([p, q, x, y, kt, vt], enc_kv(z3.Concat(p, z3.Unit(x)), z3.Concat(q, z3.Unit(y)), kt, vt) ==
+                      z3.Concat(enc_kv(p, q, kt, vt), enc_tree(x, kt), enc_tree(y, vt)),
+                      patterns=[enc_kv(z3.Concat(p, z3.Unit(x)), z3.Concat(q, z3.Unit(y)), kt, vt)])]
+
+
+class MappingEncode(CodecBase):
+    """mapping<K,V>: a uint64 pair count, then for every pair the key through the tree codec of K followed by its value
+    through the tree codec of V, in the order in which `mapping.items()` yields the pairs.  The mapping is represented by
+    its iteration sequence (ghost keys[i] -> vals[i]); `len(mapping)` is the length of that sequence.  That the items view
+    of a Python dict enumerates each key exactly once with its current value is Python's, not proved here."""
+    target = "serialization.py::MappingCodec.encode"
+    params = {"out": "stream", "mapping": "mapseq", "serialization": "ref:Serialization", "subtypes": "val"}
+    modifies = {"$stream.content": only("out"), "$stream.pos": only("out")}
+    assumptions = ("MappingCodec.encode: the mapping argument is represented by the sequence of pairs its items() view "
+                   "yields; len(mapping) equals the number of pairs iterated (true of dict and of gtirb's DictWrapper); "
+                   "the order is arbitrary",)
+
+    def axioms(self, eng):
+        return super().axioms(eng) + enc_kv_axioms()
+
+    @staticmethod
+    def _kv(a):
+        return a.mapping.x[0].t, a.mapping.x[1].t
+
+    @staticmethod
+    def _types(a):
+        st_ = to_val(a.subtypes)
+        return fst(st_), fst(snd(st_))
+
+    def pre(self, c, a):
+        st_ = to_val(a.subtypes)
+        ks, vs = self._kv(a)
+        return dict(append_pre(c, a.out.t), **{"count_fits_uint64": z3.Length(ks) < 2 ** 64,
+                                              "same_length": z3.Length(ks) == z3.Length(vs),
+                                              "two_subtypes": z3.And(Val.is_VPair(st_), Val.is_VPair(snd(st_)),
+                                                                     is_VNone(snd(snd(st_))))})
+
+    def may_raise(self, c0, a):
+        i = fresh("i", Int)
+        ks, vs = self._kv(a)
+        kt, vt = self._types(a)
+        bad = lambda code: z3.Exists([i], z3.And(0 <= i, i < z3.Length(ks),
+                                                 z3.Or(code(enc_exc(ks[i], kt)), code(enc_exc(vs[i], vt)))))
+        return {"UnknownCodecError": bad(lambda e: e == 1), "Exception": bad(lambda e: z3.And(e != 0, e != 1))}
+
+    def post(self, c0, c1, a, res):
+        s = a.out.t
+        ks, vs = self._kv(a)
+        kt, vt = self._types(a)
+        B = appended(c0, c1, s)
+        i = fresh("i", Int)
+        return {"prefix_kept": z3.SubSeq(content(c1, s), 0, z3.Length(content(c0, s))) == content(c0, s),
+                "count_as_uint64": int_wire(z3.SubSeq(B, 0, 8), 8, False, z3.Length(ks)),
+                "then_key_value_key_value": z3.SubSeq(B, 8, z3.Length(B) - 8) == enc_kv(ks, vs, kt, vt),
+                "every_pair_encodable": z3.ForAll([i], z3.Implies(z3.And(0 <= i, i < z3.Length(ks)),
+                                                                  z3.And(enc_exc(ks[i], kt) == 0, enc_exc(vs[i], vt) == 0)))}
+
+
+def _map_enc_inv(L):
+    c0, a, cur = L.c0, L.a, L.c
+    s = a.out.t
+    ks, vs = MappingEncode._kv(a)
+    kt, vt = MappingEncode._types(a)
+    old, new = content(c0, s), content(cur, s)
+    B = z3.SubSeq(new, z3.Length(old), z3.Length(new) - z3.Length(old))
+    i = fresh("i", Int)
+    r_ = fresh("r", Int)
+    return {"prefix_kept": z3.SubSeq(new, 0, z3.Length(old)) == old,
+            "count_written": int_wire(z3.SubSeq(B, 0, 8), 8, False, z3.Length(ks)),
+            "pairs_so_far": z3.And(z3.Length(B) >= 8, z3.SubSeq(B, 8, z3.Length(B) - 8) ==
+                                   enc_kv(z3.Extract(ks, 0, L.k), z3.Extract(vs, 0, L.k), kt, vt)),
+            "at_end": pos(cur, s) == z3.Length(new),
+            "other_streams_untouched": z3.ForAll([r_], z3.Implies(r_ != s, z3.And(content(cur, r_) == content(c0, r_),
+                                                                                  pos(cur, r_) == pos(c0, r_)))),
+            "encodable_so_far": z3.ForAll([i], z3.Implies(z3.And(0 <= i, i < L.k),
+                                                          z3.And(enc_exc(ks[i], kt) == 0, enc_exc(vs[i], vt) == 0)))}
+
+
+def _map_enc_lemmas(L):
+    ks, vs = MappingEncode._kv(L.a)
+    kt, vt = MappingEncode._types(L.a)
+    k = L.k
+    inb = z3.And(0 <= k, k < z3.Length(ks), k < z3.Length(vs))
+    return [z3.Implies(inb, z3.And(z3.Extract(ks, 0, k + 1) == z3.Concat(z3.Extract(ks, 0, k), z3.Unit(ks[k])),
+                                   z3.Extract(vs, 0, k + 1) == z3.Concat(z3.Extract(vs, 0, k), z3.Unit(vs[k])))),
+            z3.Implies(inb, enc_kv(z3.Extract(ks, 0, k + 1), z3.Extract(vs, 0, k + 1), kt, vt) ==
+                       z3.Concat(enc_kv(z3.Extract(ks, 0, k), z3.Extract(vs, 0, k), kt, vt), enc_tree(ks[k], kt), enc_tree(vs[k], vt)))]
+
+
+_reg9 = register
+
+
+def register(reg):      # noqa: F811
+    _reg9(reg)
+    reg.add(MappingEncode())
+    reg.add_loop("serialization.py::MappingCodec.encode", 0,
+                 LoopSpec(_map_enc_inv, modifies=("$stream.content", "$stream.pos"), lemmas=_map_enc_lemmas))
